@@ -461,7 +461,69 @@ def pin_c18support() -> typing.Tuple[bool, str]:
     return shape_pin.check_pin('c18support', [(SUPPORT, f) for f in SUPPORT_FUNCS])
 
 
-GENERATORS = {'pyobj': gen_pyobj, 'pin_c18support': pin_c18support, 'pin_c18model': pin_c18model}
+NS_J2 = 'src/nunavut/lang/py/templates/Namespace.j2'
+OUT_ALIAS = os.path.join(gen.GEN_DIR, 'Gen_PyAlias.v')
+
+
+def gen_pyalias() -> typing.Tuple[bool, str]:
+    """T2: filter_newest_minor_version_aliases (lang/py/__init__.py) -> Generated/Gen_PyAlias.v, as a composition of the combinators of
+    Gen/PyAlias.v.  Supported shape (anything else fails closed): `tys = list(tys)` and ONE return of a list comprehension
+       [(f"{name}_{major}", max((t for t in tys if t.short_name == name and t.version.major == major), key=lambda x: int(x.version.minor)))
+        for name, major in sorted({(x.short_name, x.version.major) for x in tys})]
+    where the attribute paths decide which projections are used: the key must be int(<x>.version.minor), the group test must compare
+    short_name and version.major with the loop variables, the groups must be sorted(<set of (short_name, version.major)>).
+    Also the text of the two Namespace.j2 lines that emit the aliases is checked."""
+    head = gen.HEADER % (PY_INIT + ', ' + NS_J2)
+
+    def closed(why: str) -> typing.Tuple[bool, str]:
+        gen.write_if_changed(OUT_ALIAS, head + '(* translator failed closed: %s *)\n' % why.replace('*)', '* )'))
+        return False, 'failed closed: ' + why
+
+    tree = gen.parse_repo(PY_INIT)
+    fn = next((n for n in ast.walk(tree) if isinstance(n, ast.FunctionDef) and n.name == 'filter_newest_minor_version_aliases'), None)
+    if fn is None:
+        return closed('filter_newest_minor_version_aliases not found')
+    body = [b_ for b_ in fn.body if not (isinstance(b_, ast.Expr) and isinstance(b_.value, ast.Constant))]
+    arg = fn.args.args[0].arg if fn.args.args else None
+    un = ast.unparse
+    if not (len(body) == 2 and isinstance(body[0], ast.Assign) and un(body[0]) == '%s = list(%s)' % (arg, arg) and isinstance(body[1], ast.Return)
+            and isinstance(body[1].value, ast.ListComp) and len(body[1].value.generators) == 1):
+        return closed('body is not `tys = list(tys); return [<pair> for name, major in <groups>]`')
+    lc = body[1].value
+    g = lc.generators[0]
+    if g.ifs or g.is_async or not (isinstance(g.target, ast.Tuple) and [un(e) for e in g.target.elts] == ['name', 'major']):
+        return closed('loop variables are not `name, major`')
+    if un(g.iter) != 'sorted({(x.short_name, x.version.major) for x in %s})' % arg:
+        return closed('groups are not sorted({(x.short_name, x.version.major) for x in tys}): ' + un(g.iter)[:80])
+    if not (isinstance(lc.elt, ast.Tuple) and len(lc.elt.elts) == 2 and un(lc.elt.elts[0]) == "f'{name}_{major}'"):
+        return closed('alias name is not f"{name}_{major}"')
+    mx = lc.elt.elts[1]
+    if not (isinstance(mx, ast.Call) and un(mx.func) == 'max' and len(mx.args) == 1 and len(mx.keywords) == 1 and mx.keywords[0].arg == 'key'):
+        return closed('alias target is not max(<generator>, key=...)')
+    if un(mx.args[0]) != '(t for t in %s if t.short_name == name and t.version.major == major)' % arg:
+        return closed('group members are not (t for t in tys if t.short_name == name and t.version.major == major): ' + un(mx.args[0])[:100])
+    if un(mx.keywords[0].value) != 'lambda x: int(x.version.minor)':
+        return closed('key is not lambda x: int(x.version.minor): ' + un(mx.keywords[0].value)[:60])
+    ns = squash(gen.read_repo(NS_J2))
+    if len(re.findall(r'newest_minor_version_aliases', ns)) != 1 or not re.search(
+            r'\{%- for alias, t in T\.get_nested_types\(\)\|map\("first"\)\|newest_minor_version_aliases %\} \{\{ alias \}\} = '
+            r'\{\{ t\|short_reference_name \}\} \{%- endfor %\}', ns):
+        return closed('Namespace.j2 does not emit `{{ alias }} = {{ t|short_reference_name }}` for the aliases of the filter (once)')
+    text = head + ('From Coq Require Import List Arith Bool.\nFrom Verif Require Import PyAlias.\nImport ListNotations.\n\n'
+                   '(* [(f"{name}_{major}", max((t for t in tys if t.short_name == name and t.version.major == major), key=lambda x: int(x.version.minor)))\n'
+                   '    for name, major in sorted({(x.short_name, x.version.major) for x in tys})] *)\n'
+                   'Definition aliases_gen (tys : list ver) : list (nat * nat * ver) :=\n'
+                   '  flat_map (fun nm =>\n'
+                   '              match py_max_by v_minor (filter (fun t => Nat.eqb (v_name t) (fst nm) && Nat.eqb (v_major t) (snd nm)) tys) with\n'
+                   '              | Some t => [(fst nm, snd nm, t)]\n'
+                   '              | None => []                      (* max() of an empty iterable raises; cannot happen: the group has a member *)\n'
+                   '              end)\n'
+                   '           (sorted_set (map (fun x => (v_name x, v_major x)) tys)).\n')
+    gen.write_if_changed(OUT_ALIAS, text)
+    return True, 'filter_newest_minor_version_aliases: max by int(version.minor) per (short_name, version.major)'
+
+
+GENERATORS = {'pyalias': gen_pyalias, 'pyobj': gen_pyobj, 'pin_c18support': pin_c18support, 'pin_c18model': pin_c18model}
 
 
 if __name__ == '__main__':
